@@ -96,7 +96,7 @@ func driveOnce(keys []*hello.Key, stream []byte, hrr []byte, opts *[]ech.Option)
 	split := (len(all) + 1) / 2
 	// the application keeps ONE long-lived key slice and replaces its elements in place when
 	// keys rotate: every call here reuses the same backing array for whatever list it is given
-	base := c09Arena[:split : split+3]
+	base := c09Arena[: split : split+3]
 	if *opts == nil {
 		for i := range c09Arena {
 			c09Arena[i] = ech.Key{}
